@@ -13,7 +13,8 @@
 import logging
 import operator
 from multiprocessing import Process, Queue
-from typing import Any, Callable, Dict, Iterator, List, Optional
+from queue import Empty
+from typing import Any, Callable, Dict, Iterator, List, Optional, Tuple
 
 from numpy.typing import NDArray
 
@@ -50,6 +51,8 @@ from nucs.solvers.backtrack_solver import BacktrackSolver
 from nucs.solvers.solver import Solver
 
 logger = logging.getLogger(__name__)
+
+POLL_TIMEOUT = 1.0  # the liveness of the processors is checked when no message has been received for that long (s)
 
 
 class MultiprocessingSolver(Solver):
@@ -88,13 +91,17 @@ class MultiprocessingSolver(Solver):
 
     def solve(self) -> Iterator[NDArray]:
         solutions: Queue = Queue()
+        processes = []
         for proc_idx, solver in enumerate(self.solvers):
-            Process(target=solver.solve_and_queue, args=(proc_idx, solutions)).start()
+            processes.append(Process(target=solver.solve_and_queue, args=(proc_idx, solutions)))
+            processes[proc_idx].start()
+        running = [True] * len(self.solvers)
         nb = len(self.solvers)
         while nb > 0:
-            proc_idx, solution, statistics = solutions.get()
+            proc_idx, solution, statistics = get_message(solutions, processes, running)
             self.statistics[proc_idx] = statistics
             if solution is None:
+                running[proc_idx] = False
                 nb -= 1
             else:
                 yield solution
@@ -107,18 +114,45 @@ class MultiprocessingSolver(Solver):
 
     def optimize(self, variable_idx: int, proc_func_name: str, comparison_func: Callable) -> Optional[NDArray]:
         solutions: Queue = Queue()
+        processes = []
         for proc_idx, solver in enumerate(self.solvers):
-            Process(target=(getattr(solver, proc_func_name)), args=(variable_idx, proc_idx, solutions)).start()
+            processes.append(
+                Process(target=(getattr(solver, proc_func_name)), args=(variable_idx, proc_idx, solutions))
+            )
+            processes[proc_idx].start()
         best_solution = None
+        running = [True] * len(self.solvers)
         nb = len(self.solvers)
         while nb > 0:
-            proc_idx, solution, statistics = solutions.get()
+            proc_idx, solution, statistics = get_message(solutions, processes, running)
             self.statistics[proc_idx] = statistics
             if solution is None:
+                running[proc_idx] = False
                 nb -= 1
             elif best_solution is None or comparison_func(solution[variable_idx], best_solution[variable_idx]):
                 best_solution = solution
         return best_solution
+
+
+def get_message(solutions: Queue, processes: List[Any], running: List[bool]) -> Tuple[int, Optional[NDArray], Any]:
+    """
+    Gets the next message sent by a processor.
+    :param solutions: the queue of messages
+    :param processes: the processes
+    :param running: for each processor, false iff its completion has been received
+    :return: a message (processor index, solution or None, statistics)
+    :raises RuntimeError: if a process has terminated without having announced its completion
+    """
+    while True:
+        try:
+            return solutions.get(timeout=POLL_TIMEOUT)
+        except Empty:
+            dead = [idx for idx, process in enumerate(processes) if running[idx] and not process.is_alive()]
+            if len(dead) > 0:
+                try:  # the last messages of a terminated process may have arrived since the timeout
+                    return solutions.get(timeout=POLL_TIMEOUT)
+                except Empty:
+                    raise RuntimeError(f"Processors {dead} have terminated abnormally")
 
 
 def sum_stats(stats: List[Any], index: int) -> int:
